@@ -50,6 +50,8 @@ type memStore struct {
 	onDel func(key string) error
 	// called at the entry of Delete, before the store's own mutex is taken (a slow delete)
 	preDel func(key string)
+	// called at the entry of Set, before the mutex and before the data is copied (a slow write)
+	preSet func(key string)
 	gets   int
 	dels   []string
 }
@@ -71,6 +73,9 @@ func (s *memStore) Get(key []byte) ([]byte, error) {
 	return d, nil
 }
 func (s *memStore) Set(key []byte, data []byte, ttl time.Duration) error {
+	if s.preSet != nil {
+		s.preSet(string(key))
+	}
 	s.mu.Lock()
 	defer s.mu.Unlock()
 	cp := append([]byte(nil), data...)
@@ -246,20 +251,40 @@ var adminOnce sync.Once
 
 func adminPurge(cacheName, key string) (int, error) {
 	adminOnce.Do(func() {
-		ln, err := net.Listen("tcp", "127.0.0.1:0")
-		if err != nil {
-			return
-		}
-		addr := ln.Addr().String()
-		ln.Close()
-		go func() { _ = server.StartAdminServer(server.AdminServerConfig{Addr: addr}) }()
-		for i := 0; i < 100; i++ {
-			if c, err := net.DialTimeout("tcp", addr, 100*time.Millisecond); err == nil {
-				c.Close()
-				adminAddr = addr
-				return
+		// a free port can be taken by another process between probing and listening: try a few
+		for attempt := 0; attempt < 5 && adminAddr == ""; attempt++ {
+			ln, err := net.Listen("tcp", "127.0.0.1:0")
+			if err != nil {
+				continue
 			}
-			time.Sleep(20 * time.Millisecond)
+			addr := ln.Addr().String()
+			ln.Close()
+			failed := make(chan struct{})
+			go func() {
+				_ = server.StartAdminServer(server.AdminServerConfig{Addr: addr})
+				close(failed) // ListenAndServe returned: the port was not ours after all
+			}()
+			for i := 0; i < 100 && adminAddr == ""; i++ {
+				select {
+				case <-failed:
+					i = 100
+					continue
+				default:
+				}
+				if c, err := net.DialTimeout("tcp", addr, 100*time.Millisecond); err == nil {
+					c.Close()
+					// make sure it is OUR admin server that answers there
+					if resp, err := http.Get("http://" + addr + "/ping"); err == nil {
+						b, _ := io.ReadAll(resp.Body)
+						resp.Body.Close()
+						if string(b) == "pong" {
+							adminAddr = addr
+						}
+					}
+					break
+				}
+				time.Sleep(20 * time.Millisecond)
+			}
 		}
 	})
 	if adminAddr == "" {
